@@ -6,6 +6,7 @@ from collections import Counter
 from . import common as C
 from . import proggen as G
 from . import execchecks as E
+from . import scripted as S
 
 # programs aimed at the optimiser's mechanisms (anchors of C02)
 def opt_templates():
@@ -28,7 +29,9 @@ def opt_templates():
 
 
 def gen_cases(rng, n):
-    cases = opt_templates() + [(t, p, s) for t, p, s in G.templates(rng)]
+    cases = opt_templates() + [(t, p, s) for t, p, s in G.templates(rng)] + G.boundary_programs()
+    for _ in range(max(20, n // 3)):
+        cases.append(("scripted", S.scripted(rng), G.gen_stdin(rng)))
     for _ in range(n):
         cmds = G.gen_program(rng)
         cases.append(("random", G.render(cmds), G.gen_stdin(rng)))
@@ -93,7 +96,7 @@ def run(prop, tier, seed):
     distinct = set()
     propfail, corr = [], []
     for k, (tag, prog, stdin) in enumerate(cases):
-        hist[tag if tag == "random" else "template"] += 1
+        hist[tag if tag in ("random", "scripted") else "template"] += 1
         if r0[k][0] == "timeout":
             hist["nonterminating"] += 1
         if "log=0|" not in st0[2][k] and st0[2][k].startswith("ok"):
